@@ -247,6 +247,34 @@ def oracle_basic(case, rec):
          R.nsi_exponential_closeness(A, w), "nsi_exponential_closeness")
     plan.cmp(net, "nsi_global_efficiency", R.nsi_global_efficiency(A, w),
          "nsi_global_efficiency")
+    # further n.s.i. measures (extended neighbourhoods, node weights)
+    plan.cmp(net, "nsi_transitivity", R.nsi_transitivity(A, w),
+             "nsi_transitivity")
+    plan.cmp(net, "nsi_average_neighbors_degree",
+             R.nsi_average_neighbors_degree(A, w),
+             "nsi_average_neighbors_degree")
+    plan.cmp(net, "nsi_max_neighbors_degree",
+             R.nsi_max_neighbors_degree(A, w), "nsi_max_neighbors_degree")
+    plan.cmp(net, "nsi_bildegree", R.nsi_bildegree(A, w), "nsi_bildegree")
+    plan.cmp(net, "nsi_laplacian", R.nsi_laplacian(A, w), "nsi_laplacian")
+    plan.cmp(net, "nsi_local_soffer_clustering",
+             R.nsi_local_soffer_clustering(A, w),
+             "nsi_local_soffer_clustering")
+    plan.cmp(net, "nsi_twinness", R.nsi_twinness(A, w), "nsi_twinness")
+    plan.cmp(net, "undirected_adjacency", U, "undirected_adjacency")
+    if connected and n >= 3 and U.sum():
+        plan.cmp(net, "nsi_eigenvector_centrality",
+                 R.nsi_eigenvector_centrality(A, w),
+                 "nsi_eigenvector_centrality", rtol=EIG_TOL, atol=EIG_TOL)
+    if case.get("W") is not None and U.sum():
+        Wm = np.array(case["W"], dtype=float) * U
+        ref_w = R.weighted_local_clustering(Wm)
+        ok, val = rec.call("weighted_local_clustering_raises",
+                           net.weighted_local_clustering, Wm)
+        if ok:
+            m = ~np.isnan(ref_w)
+            rec.close(np.asarray(val, dtype=float)[m], ref_w[m],
+                      "weighted_local_clustering")
     # --- unit weights: documented relations to the unweighted measures
     ok, res = rec.call("construct_unit", make, case, False)
     if ok:
